@@ -400,7 +400,9 @@ func MinDuration(d time.Duration, fn func() (interface{}, error)) func() (interf
 	return func() (value interface{}, err error) {
 		startedAt := time.Now()
 		value, err = fn()
+		verifAt("minduration.tw0", nil, 0)
 		time.Sleep(startedAt.Add(d).Sub(time.Now()))
+		verifAt("minduration.tw1", nil, 0)
 		return
 	}
 }
